@@ -202,6 +202,8 @@ Definition after_doc (s : step) (key : string) : option (option string * list db
   | None => None
   end.
 
+Definition note_atoms (key : string) (bs : list dblock) : list string := atoms (key_parent key) bs.
+
 Definition mem_str (x : string) (l : list string) : bool := existsb (String.eqb x) l.
 
 Fixpoint nodup_str (l : list string) : bool :=
@@ -272,6 +274,59 @@ Definition lib_dom (c : libcase) : bool :=
 
 Definition step_dom (s : step) : bool :=
   forallb (fun r => match rr_doc r with Ok d => blocks_dom (snd d) | Panic _ => false end) (st_after s).
+
+(* ---------- classifiers on the blocks the model predicts for the result ---------------------- *)
+
+(* class 3 "adjacent lists": the blocks written for the result contain two lists of the same
+   type next to each other in one context (top level, quote body, item body): any Markdown
+   reader takes them for one list *)
+Definition same_list (a b : gblock) : bool :=
+  match a, b with
+  | GBList _, GBList _ | GOList _, GOList _ => true
+  | _, _ => false
+  end.
+Fixpoint adjacent_in (l : list gblock) : bool :=
+  match l with
+  | a :: ((b :: _) as r) => same_list a b || adjacent_in r
+  | _ => false
+  end.
+Fixpoint g_adjacent (b : gblock) {struct b} : bool :=
+  let fix go (l : list gblock) : bool := match l with [] => false | x :: r => g_adjacent x || go r end in
+  let fix goi (l : list (list gblock)) : bool := match l with [] => false | x :: r => adjacent_in x || go x || goi r end in
+  match b with
+  | GQuote bs => adjacent_in bs || go bs
+  | GOList its | GBList its => goi its
+  | _ => false
+  end.
+Definition adjacent_lists (bs : list gblock) : bool := adjacent_in bs || existsb g_adjacent bs.
+
+Fixpoint max_level (b : gblock) : nat :=
+  let fix go (l : list gblock) : nat := match l with [] => 0 | x :: r => Nat.max (max_level x) (go r) end in
+  let fix goi (l : list (list gblock)) : nat := match l with [] => 0 | x :: r => Nat.max (go x) (goi r) end in
+  match b with
+  | GHeader n _ => n
+  | GQuote bs => go bs
+  | GOList its | GBList its => goi its
+  | _ => 0
+  end.
+Definition max_levels (bs : list gblock) : nat := fold_right (fun b n => Nat.max (max_level b) n) 0 bs.
+
+(* a tight item in which a rule or a table follows the item text (read back as a setext heading /
+   as continuation text): what section -> list writes for a section whose body has such a block
+   and at most one paragraph *)
+Fixpoint g_calm (b : gblock) {struct b} : bool :=
+  let fix go (l : list gblock) : bool := match l with [] => true | x :: r => g_calm x && go r end in
+  let fix goi (tight : bool) (l : list (list gblock)) : bool :=
+    match l with
+    | [] => true
+    | it :: r => negb (tight && existsb (fun x => match x with GRule | GTable _ _ _ => true | _ => false end) it)
+                 && go it && goi tight r
+    end in
+  match b with
+  | GQuote bs => go bs
+  | GOList its | GBList its => goi (negb (is_sparse its)) its
+  | _ => true
+  end.
 
 (* per-action results are folded like per-note results: an action failing outside every class
    is reported without classes (so it can never hide behind another action's class) *)
